@@ -18,5 +18,6 @@ MC_LockNames == {}
 MC_CallerIds == 1..NCallers
 \* the parameter tree is compared on every transition of MC_Shape / MC_Params; here the frames and the header are exported
 MC_Files == <<>>
+MC_AliasGroups == {}
 Dump == ~Sampled(Len(hist)) \/ PrintT(ToJson([path |-> hist, op |-> lastOp', out |-> lastOut', post |-> [hdr |-> AbsHdr(obj'.hdr), frm |-> obj'.frm]]))
 =========================================================================
